@@ -179,7 +179,15 @@ pub fn run(tier: Tier) -> i32 {
     }];
     // quick uses the (smaller) order alphabet without the "must contain a sort" restriction
     let cfgs: Vec<GenCfg> = cfgs.into_iter().map(|mut c| { if tier == Tier::Quick { c.letters = Letters::Naming; } c }).collect();
-    let (progs, st) = enumerate(&cfgs);
+    let (mut progs, st) = enumerate(&cfgs);
+    // order-dependent bases: every depth-3 pipeline of the order alphabet that contains a `take`
+    // (a let boundary between a sort and a take that is not in the final SELECT needs 3 steps);
+    // these get the prefix-naming rewrites only
+    let order_cfg = GenCfg { depth: 3, sources: vec![SrcKind::SubClosed], max_joins: 1, letters: Letters::Order };
+    let (order_progs, st_o) = enumerate(&[order_cfg]);
+    let n_general = progs.len();
+    progs.extend(order_progs.into_iter().filter(|(p, _, _)| p.main.as_ref().map(|m| m.steps.iter().any(|s| matches!(s, Step::Take(..)))).unwrap_or(false)));
+    let st = crate::engine::Stats { executions: st.executions + st_o.executions, points: st.points + st_o.points, ..st };
     let pool = inst::pool();
     // 1. base programs on which the implementation agrees with the model
     let base_out: Vec<Outcome> = par_map(&progs, Db::new, |db, (p, _, _)| check_program(db, p, &pool));
@@ -191,6 +199,9 @@ pub fn run(tier: Tier) -> i32 {
             continue;
         }
         for r in rewrites(p, tier) {
+            if i >= n_general && !(r.kind.starts_with("R1") || (tier == Tier::Thorough && (r.kind.starts_with("R2") || r.kind.starts_with("R6")))) {
+                continue;
+            }
             cases.push((r, i));
         }
     }
